@@ -711,6 +711,23 @@ class E5:
         fields = {m.split(".")[-1]: m for m in mems}
         if set(fields) != {"left", "right", "top", "bottom"}:
             return False, "condition does not test all of left/right/top/bottom (found %s)" % mems
+        # the rectangle tested is, on every path, the bounds of the whole input: a local initialised by GetBounds(<paths parameter>)
+        # and not assigned again (a rectangle that is only sometimes computed lets the other inputs through unchecked)
+        base = fields["left"].rsplit(".", 1)[0]
+        pname = f.params[0].get("name")
+        decls = [x for x in walk(f.body) if x.get("kind") == "VarDecl" and x.get("name") == base]
+        if len(decls) != 1:
+            return False, "the rectangle `%s` tested against the coordinate range is not a single local" % base
+        init = [c for c in kids(decls[0]) if isinstance(c, dict) and c.get("kind")]
+        e0 = strip(init[-1]) if init else {}
+        while e0.get("kind") in ("CXXConstructExpr", "MaterializeTemporaryExpr", "CXXBindTemporaryExpr", "ExprWithCleanups") and len(kids(e0)) == 1:
+            e0 = strip(kids(e0)[0])
+        if not (e0.get("kind") == "CallExpr" and self.db.callee(e0)[0] == "GetBounds" and self.db.call_args(e0) and canon(self.db.call_args(e0)[0]) == pname):
+            return False, ("the rectangle `%s` tested against the coordinate range is not always GetBounds(%s) (its initialiser is `%s`): inputs for which the "
+                           "bounds are not computed are scaled unchecked" % (base, pname, canon(init[-1])[:80] if init else "missing"))
+        for x in walk(f.body):
+            if x.get("kind") == "BinaryOperator" and x.get("opcode") == "=" and canon(kids(x)[0]) == base:
+                return False, "the rectangle `%s` is assigned again before / after the range test" % base
         sx, sy = f.params[1].get("name"), f.params[2].get("name")
         consts = {}
         for n, qual, cls in self.db.globals:
